@@ -300,6 +300,8 @@ def q_model_spec(rnd, kinds_filter=None, min_layers=2, max_layers=5):
     t = rnd.choice(pick_kinds())
     ub = bool(rnd.randint(0, 1))
     wq, wq2, bq, aq = rnd.choice(WQD), rnd.choice(WQD), rnd.choice(BQD) if ub else None, rnd.choice(AQD)
+    if not ub and t in ("QDense", "QConv2D", "QConv1D", "QDepthwiseConv2D", "QConv2DBatchnorm", "QDepthwiseConv2DBatchnorm") and rnd.random() < 0.7:
+      bq = rnd.choice(BQD)      # a bias quantizer configured on a layer without a bias is still a reported quantizer
     if t == "QDense":
       add(t, "qdense", {"units": rnd.randint(1, 4), "kernel_quantizer": wq, "bias_quantizer": bq, "activation": aq, "use_bias": ub})
     elif t in ("QConv2D", "QConv2D_mask"):
